@@ -1273,6 +1273,33 @@ def d6_whole_fraction(ctx):
             continue
         wk = _round_kind(k, sp)
         st = du.cfg.node_for(c).stmt
+        if isinstance(st, ast.Return) and st.value is c:
+            # the whole shift is applied as a roll and returned: right exactly when the shift IS a whole number on this path
+            from sa import guards as GD
+            at_ = GD.Atoms()
+            pc_ = GD.path_condition(du.cfg, du.cfg.node_for(c), at_)
+            exact = approx = None
+            for k_ in GD.atoms_of(pc_):
+                e_ = at_.exprs.get(k_)
+                if e_ is None or GD.entails(pc_, GD.Atom(k_)) is not True:
+                    continue
+                t_ = src(e_).replace(" ", "")
+                if isinstance(e_, ast.Compare) and len(e_.ops) == 1 and isinstance(e_.ops[0], ast.Eq) and sp in t_ and any(w in t_ for w in ("round(", "int(", "floor(", "rint(", "%1")):
+                    exact = e_
+                if isinstance(e_, ast.Call) and call_name(e_) == "is_integer" and sp in t_:
+                    exact = e_
+                if isinstance(e_, ast.Call) and call_name(e_) in ("isclose", "allclose") and sp in t_:
+                    approx = e_
+            if exact is not None:
+                ctx.ok(fi, c, c, f"roll-only path taken when `{src(exact)[:50]}`: the shift is a whole number of samples there", key="split:roll-only")
+            elif approx is not None:
+                ctx.violation(fi, c, c, f"the shift is applied as a pure roll by `{src(k)}` whenever `{src(approx)[:60]}`: that test has a RELATIVE tolerance (rtol * |s|), so a shift "
+                              "such as 2046.984 or 300.002 counts as whole and its fractional part is dropped - the output is a roll instead of the analytic delay, and shifts no "
+                              "longer compose", key="split:roll-only", name_free=True)
+            else:
+                ctx.violation(fi, c, c, f"the shift is applied as a pure roll by `{src(k)}` on a path that does not establish that the shift is a whole number of samples "
+                              f"(guards: {GD.show(pc_)[:140]})", key="split:roll-only", name_free=True)
+            continue
         # the remainder: the value bound to the shift by the same statement (tuple assignment) or by the next assignment to it
         rem = None
         if isinstance(st, ast.Assign) and isinstance(st.targets[0], ast.Tuple) and isinstance(st.value, ast.Tuple) and len(st.targets[0].elts) == len(st.value.elts):
